@@ -416,6 +416,34 @@ def bounded(crate, an, fx, b, I, C, bound_term=None, vers=None, depth=0):
                 if ab is not None and all(bounded(crate, an, fx, b, x, None, bound_term=N, vers=vers, depth=depth + 1)
                                           for x in ab):
                     return "BITS"
+    # PHI: a value merged from several paths is bounded when every incoming value is
+    base, fpath = I, []
+    while base[0] == "field" and len(base) == 3:
+        fpath.append(base[2])
+        base = base[1]
+    if base[0] == "phi" and len(base) == 3 and base[2].startswith("v"):
+        from .core import mk_field
+        pb = base[1]
+        ok = True
+        n = 0
+        for p_, _ in an.cfg.pred[pb]:
+            if p_ not in an.ver_out:
+                continue
+            x = an.var_term(an.ver_out[p_], base[2])
+            if x == base:
+                continue
+            for f_ in reversed(fpath):
+                x = mk_field(x, f_, int(f_) if str(f_).isdigit() else 0)
+            n += 1
+            if not bounded(crate, an, fx, p_, x, C, bound_term=bound_term, vers=an.ver_out[p_], depth=depth + 1):
+                ok = False
+                break
+        if ok and n:
+            return "PHI"
+    # PARAM-INV: the index is the parameter of a closure that a std adaptor applies to every item of an
+    # iterator built in the parent; origin and bound are established in the parent
+    if an.f["kind"] == "Closure" and C is not None and param_inv(crate, an, I, C):
+        return "PARAM-INV"
     # INV: contiguity contract
     org = Origins(crate, an, fx).origin(I)
     if org is not None:
@@ -427,6 +455,54 @@ def bounded(crate, an, fx, b, I, C, bound_term=None, vers=None, depth=0):
                 if B == ct or fx.holds(b, lambda rel, B=B: rel.le(ct, B)):
                     return "INV"
     return None
+
+
+def param_inv(crate, an, I, C):
+    from .closures import capture_map, MAP_LIKE
+    from .origin import Origins
+    if I == ("arg", 2):
+        deref = False
+    elif I == ("mem", "A2", ("e",), None):
+        deref = True
+    else:
+        return False
+    if not (C[0] == "at" and C[2] is None):
+        return False
+    cm = capture_map(crate, an)
+    if cm is None:
+        return False
+    # the closure never changes the header (length) of the captured container
+    Rc = C[1]
+    if any(Rc in vs for vs in an.defs_at.values()):
+        return False
+    pr = [p for p, c in cm.regmap if c == Rc]
+    if len(pr) != 1:
+        return False
+    pan = cm.pan
+    pfx = crate.fx(pan.path)
+    for ev in pan.events:
+        if ev["k"] != "call" or ev["key"] not in MAP_LIKE or ev["key"].endswith("::filter"):
+            continue
+        if len(ev["args"]) < 2 or ev["args"][1] != cm.agg:
+            continue
+        d = ev["args"][0]
+        if d[0] == "addr":
+            d = pfx.iter_desc(ev)
+        org = Origins(crate, pan, pfx).item_origin(d, (), deref)
+        if org is None:
+            return False
+        kind, D = org
+        ok, why = type_is_contiguous(crate, pan, D)
+        if not ok:
+            return False
+        pvers = ev["vers"]
+        ct = cord_term(crate, pan, D, pvers)
+        pC = pan.arg_for_call(("addr", pr[0], None), pvers, True)
+        for B in bound_class(crate, pan, pC, pvers):
+            if B == ct or pfx.holds(ev["b"], lambda rel, B=B: rel.le(ct, B)):
+                return True
+        return False
+    return False
 
 
 def self_iterator(crate, an, fx, ev):
